@@ -14,5 +14,5 @@ row0 = dict(zip(sens._headers, sens._physical_values[0]))
 label0 = next(iter(sens._labels))
 print("results.csv row 0:", row0, " folder:", label0)
 ok = cell0.centre.lower_limit <= row0["centre"] <= cell0.centre.upper_limit and label0 == "sigma_2.0_centre_100.5"
-print("no violation: headers and labels follow the grid dimensions (repaired)" if ok else
+print("no violation: headers and labels follow the grid dimensions (repaired in /repo, c25e54b)" if ok else
       "VIOLATION: row 0 / folder 0 describe centre=%s, sigma=%s; the cell fitted has centre in [100, 101], sigma in [0, 4]" % (row0["centre"], row0["sigma"]))
